@@ -5,8 +5,8 @@ Two ONE-STEP interpretations of a reference text are defined here:
   * `stepGo`   — what openapi3/loader.go does: `url.Parse` (first `#` splits), `resolvePath`
                  (`path.Join ∘ path.Dir`, absolute paths and URLs taken as they are), whole-file references
                  decoded as the expected kind, typed drill-down with `unescapeRefString` (`~1` then `~0`),
-                 `T.Extensions` for unknown top-level keys, the raw re-read fallback (which reads the
-                 REFERRING file, `path`), the nil typed field (panic);
+                 `T.Extensions` for unknown top-level keys, the raw re-read fallback (of the REFERENCED
+                 file `componentPath` since f972c33; a nil typed field on the way is a drill error since 25200f7);
   * `stepSpec` — RFC 3986 reference resolution (merge + remove_dot_segments) and an RFC 6901 pointer
                  evaluated in the RAW JSON of the target file. It never looks at typed structures.
 `buildWorld` closes the set of nodes under `stepGo` and produces the abstract `Loader.World` on which
@@ -153,19 +153,18 @@ structure Child where
   toks   : List String
   j      : Json
   kind   : Kind
-  walked : Bool
 
-def one (j : Json) (pre : List String) (k : String) (kind : Kind) (walked : Bool) : List Child :=
+def one (j : Json) (pre : List String) (k : String) (kind : Kind) : List Child :=
   match sub j k with
-  | some v => if isObj v then [⟨pre ++ [k], v, kind, walked⟩] else []
+  | some v => if isObj v then [⟨pre ++ [k], v, kind⟩] else []
   | none => []
-def mapKids (j : Json) (pre : List String) (k : String) (kind : Kind) (walked : Bool) : List Child :=
+def mapKids (j : Json) (pre : List String) (k : String) (kind : Kind) : List Child :=
   match sub j k with
-  | some m => (kvs m).filterMap (fun (n, v) => if isObj v then some ⟨pre ++ [k, n], v, kind, walked⟩ else none)
+  | some m => (kvs m).filterMap (fun (n, v) => if isObj v then some ⟨pre ++ [k, n], v, kind⟩ else none)
   | none => []
-def arrKids (j : Json) (pre : List String) (k : String) (kind : Kind) (walked : Bool) : List Child :=
+def arrKids (j : Json) (pre : List String) (k : String) (kind : Kind) : List Child :=
   match sub j k with
-  | some (.arr a) => (a.toList.zipIdx).filterMap (fun (v, i) => if isObj v then some ⟨pre ++ [k, toString i], v, kind, walked⟩ else none)
+  | some (.arr a) => (a.toList.zipIdx).filterMap (fun (v, i) => if isObj v then some ⟨pre ++ [k, toString i], v, kind⟩ else none)
   | _ => []
 def notExt (n : String) : Bool := !(n.startsWith "x-")
 /-- the media types of a `content` map, sorted, with their token prefix -/
@@ -175,62 +174,58 @@ def mediaTypes (j : Json) (pre : List String) : List (List String × Json) :=
   | none => []
 def encodingHeaders (mt : Json) (pre : List String) : List Child :=
   match sub mt "encoding" with
-  | some m => (kvs m).flatMap (fun (n, v) => mapKids v (pre ++ ["encoding", n]) "headers" .header false)
+  | some m => (kvs m).flatMap (fun (n, v) => mapKids v (pre ++ ["encoding", n]) "headers" .header)
   | none => []
+
+/-- `resolveExampleRefs` -/
+def exampleRefs (j : Json) (pre : List String) : List Child := mapKids j pre "examples" .example
+
+/-- `resolveContentRefs`: per media type (sorted by name) its examples, its schema, then the headers of each
+    of its encodings -/
+def contentRefs (j : Json) (pre : List String) : List Child :=
+  (mediaTypes j pre).flatMap (fun (p, mt) => exampleRefs mt p ++ one mt p "schema" .schema ++ encodingHeaders mt p)
 
 def opNames : List String := ["connect", "delete", "get", "head", "options", "patch", "post", "put", "trace"]
 
-/-- children of a VALUE of kind `k`, in the order the resolver of that kind visits them; positions that
-    no resolver visits carry `walked = false` -/
+/-- children of a VALUE of kind `k`, in the order the resolver of that kind visits them -/
 def children (k : Kind) (j : Json) : List Child :=
   match k with
   | .schema =>
-    one j [] "items" .schema true ++ mapKids j [] "properties" .schema true ++
-    one j [] "additionalProperties" .schema true ++ one j [] "not" .schema true ++
-    arrKids j [] "allOf" .schema true ++ arrKids j [] "anyOf" .schema true ++ arrKids j [] "oneOf" .schema true
-  | .header =>
-    one j [] "schema" .schema true ++ mapKids j [] "examples" .example false ++
-    (mediaTypes j []).flatMap (fun (p, mt) => one mt p "schema" .schema false ++ mapKids mt p "examples" .example false ++ encodingHeaders mt p)
-  | .parameter =>
-    (mediaTypes j []).flatMap (fun (p, mt) => one mt p "schema" .schema true) ++
-    one j [] "schema" .schema true ++ mapKids j [] "examples" .example false ++
-    (mediaTypes j []).flatMap (fun (p, mt) => mapKids mt p "examples" .example false ++ encodingHeaders mt p)
-  | .requestBody =>
-    (mediaTypes j []).flatMap (fun (p, mt) => mapKids mt p "examples" .example true ++ one mt p "schema" .schema true) ++
-    (mediaTypes j []).flatMap (fun (p, mt) => encodingHeaders mt p)
-  | .response =>
-    mapKids j [] "headers" .header true ++
-    (mediaTypes j []).flatMap (fun (p, mt) => mapKids mt p "examples" .example true ++ one mt p "schema" .schema true) ++
-    mapKids j [] "links" .link true ++
-    (mediaTypes j []).flatMap (fun (p, mt) => encodingHeaders mt p)
+    one j [] "items" .schema ++ mapKids j [] "properties" .schema ++
+    one j [] "additionalProperties" .schema ++ one j [] "not" .schema ++
+    arrKids j [] "allOf" .schema ++ arrKids j [] "anyOf" .schema ++ arrKids j [] "oneOf" .schema
+  | .header => contentRefs j [] ++ one j [] "schema" .schema ++ exampleRefs j []
+  | .parameter => contentRefs j [] ++ one j [] "schema" .schema ++ exampleRefs j []
+  | .requestBody => contentRefs j []
+  | .response => mapKids j [] "headers" .header ++ contentRefs j [] ++ mapKids j [] "links" .link
   | .securityScheme => []
   | .example => []
   | .link => []
   | .callback =>
-    (kvs j).filterMap (fun (n, v) => if notExt n && isObj v then some ⟨[n], v, .pathItem, true⟩ else none)
+    (kvs j).filterMap (fun (n, v) => if notExt n && isObj v then some ⟨[n], v, .pathItem⟩ else none)
   | .pathItem =>
-    arrKids j [] "parameters" .parameter true ++
+    arrKids j [] "parameters" .parameter ++
     opNames.flatMap (fun o => match sub j o with
       | some op =>
-        arrKids op [o] "parameters" .parameter true ++ one op [o] "requestBody" .requestBody true ++
+        arrKids op [o] "parameters" .parameter ++ one op [o] "requestBody" .requestBody ++
         (match sub op "responses" with
-         | some m => (kvs m).filterMap (fun (n, v) => if notExt n && isObj v then some ⟨[o, "responses", n], v, .response, true⟩ else none)
+         | some m => (kvs m).filterMap (fun (n, v) => if notExt n && isObj v then some ⟨[o, "responses", n], v, .response⟩ else none)
          | none => []) ++
-        mapKids op [o] "callbacks" .callback true
+        mapKids op [o] "callbacks" .callback
       | none => [])
 
-/-- top-level positions of a document, in `ResolveRefsIn` order (`components.links` is never visited) -/
+/-- top-level positions of a document, in `ResolveRefsIn` order -/
 def docChildren (j : Json) : List Child :=
   (match sub j "components" with
    | some c =>
-     mapKids c ["components"] "headers" .header true ++ mapKids c ["components"] "parameters" .parameter true ++
-     mapKids c ["components"] "requestBodies" .requestBody true ++ mapKids c ["components"] "responses" .response true ++
-     mapKids c ["components"] "schemas" .schema true ++ mapKids c ["components"] "securitySchemes" .securityScheme true ++
-     mapKids c ["components"] "examples" .example true ++ mapKids c ["components"] "callbacks" .callback true ++
-     mapKids c ["components"] "links" .link false
+     mapKids c ["components"] "headers" .header ++ mapKids c ["components"] "parameters" .parameter ++
+     mapKids c ["components"] "requestBodies" .requestBody ++ mapKids c ["components"] "responses" .response ++
+     mapKids c ["components"] "schemas" .schema ++ mapKids c ["components"] "securitySchemes" .securityScheme ++
+     mapKids c ["components"] "examples" .example ++ mapKids c ["components"] "callbacks" .callback ++
+     mapKids c ["components"] "links" .link
    | none => []) ++
   (match sub j "paths" with
-   | some m => (kvs m).filterMap (fun (n, v) => if notExt n && isObj v then some ⟨["paths", n], v, .pathItem, true⟩ else none)
+   | some m => (kvs m).filterMap (fun (n, v) => if notExt n && isObj v then some ⟨["paths", n], v, .pathItem⟩ else none)
    | none => [])
 
 /-! ### Concrete nodes -/
@@ -250,7 +245,6 @@ structure CNode where
   rid     : String
   j       : Json
   kids    : List (List String × Kind)
-  skipped : List (List String × Kind)
   typed   : Bool              -- a position of the typed document tree of `src`
   nat     : Bool := true      -- exists in a real run (not only in the over-approximating closure over contexts)
   copy    : Bool := false     -- the local copy `resolved` that a resolver makes of a target that is itself a reference
@@ -271,8 +265,7 @@ def enum : Nat → Cx → String → List String → Kind → Json → Bool → 
     let r := refOf j
     let cs := if r.isSome then [] else children k j
     { cx := cx, src := src, ptr := ptr, kind := k, ref := r, rid := ridOf k j ptr, j := j,
-      kids := (cs.filter (·.walked)).map (fun c => (ptr ++ c.toks, c.kind)),
-      skipped := (cs.filter (fun c => !c.walked)).map (fun c => (ptr ++ c.toks, c.kind)), typed := typed } ::
+      kids := cs.map (fun c => (ptr ++ c.toks, c.kind)), typed := typed } ::
     cs.flatMap (fun c => enum f cx src (ptr ++ c.toks) c.kind c.j typed)
 
 def enumDoc (cx : Cx) (src : String) (j : Json) : List CNode :=
@@ -285,35 +278,80 @@ def goName : Kind → String
   | .schema => "Schema" | .securityScheme => "SecurityScheme" | .example => "Example" | .callback => "Callback"
   | .link => "Link" | .pathItem => "PathItem"
 
-/-- does `documentPath, err = loader.loadSingleElementFromURI(…)` move the document path (or is it `_, err =`) -/
-def movesDocumentPath : Kind → Bool
-  | .securityScheme | .example | .link => false
-  | _ => true
+/-- does `documentPath, err = loader.loadSingleElementFromURI(…)` move the document path (or is it `_, err =`):
+    every routine does since 0a3c233 -/
+def movesDocumentPath : Kind → Bool := fun _ => true
 
-/-- the resolvers a routine calls on child positions, in source order -/
-def walkCalls : Kind → List Kind
-  | .header => [.schema]
-  | .parameter => [.schema, .schema]
-  | .requestBody => [.example, .schema]
-  | .response => [.header, .example, .schema, .link]
-  | .schema => [.schema, .schema, .schema, .schema, .schema, .schema, .schema]
-  | .callback => [.pathItem]
-  | .pathItem => [.parameter, .parameter, .requestBody, .response, .callback]
+/-- the rest of the routine (the walk of the value's children) runs in the TARGET's context: only
+    `resolvePathItemRef` assigns `doc, documentPath, err = loader.resolveComponent(…)`; the other nine declare
+    locals `doc, componentPath, err :=` that end with the else-block -/
+def walksInTargetContext : Kind → Bool
+  | .pathItem => true
+  | _ => false
+
+/-- what a routine calls after its `$ref` block, in source order -/
+inductive Call
+  | res (k : Kind)     -- loader.resolve<K>Ref(doc, <child>, documentPath …)
+  | content            -- loader.resolveContentRefs(doc, value.Content, documentPath)
+  | examples           -- loader.resolveExampleRefs(doc, <examples>, documentPath)
+  | guard              -- a `return` of a new error (parameter: both `schema` and `content`)
+  deriving DecidableEq, Repr
+
+def Call.name : Call → String
+  | .res k => goName k
+  | .content => "ContentRefs"
+  | .examples => "ExampleRefs"
+  | .guard => "!error"
+
+/-- the calls behind `children` -/
+def walkCalls : Kind → List Call
+  | .header => [.content, .res .schema, .examples]
+  | .parameter => [.guard, .content, .res .schema, .examples]
+  | .requestBody => [.content]
+  | .response => [.res .header, .content, .res .link]
+  | .schema => [.res .schema, .res .schema, .res .schema, .res .schema, .res .schema, .res .schema, .res .schema]
+  | .callback => [.res .pathItem]
+  | .pathItem => [.res .parameter, .res .parameter, .res .requestBody, .res .response, .res .callback]
   | _ => []
 
-/-- flags: value-present check, shouldVisitRef, visitRef, single-element branch, single-element load moves
-    documentPath, resolveComponent, recursive call on the local copy, deferred unvisitRef -/
-def skeletonFlags (k : Kind) : List Bool :=
-  [true, true, true, true, movesDocumentPath k, true, k != .pathItem, true]
+/-- `resolveContentRefs` (behind `contentRefs`), `resolveExampleRefs` (behind `exampleRefs`), `ResolveRefsIn`
+    (behind `docChildren`) -/
+def contentCalls : List Call := [.examples, .res .schema, .res .header]
+def exampleCalls : List Call := [.res .example]
+def documentCalls : List Call :=
+  [.res .header, .res .parameter, .res .requestBody, .res .response, .res .schema, .res .securityScheme,
+   .res .example, .res .callback, .res .link, .res .pathItem]
 
-def kindsByGoName : List Kind :=
-  [.callback, .example, .header, .link, .parameter, .pathItem, .requestBody, .response, .schema, .securityScheme]
+/-- the statements of a routine's `$ref` block as the model reads them (tokens of the generated table):
+    isEmpty test; value present → return; text in progress → callback (ok-checked assertion: `unvisit` skips
+    values of another kind); visitRef; whole-file branch (decode the element, MOVE documentPath, set the value);
+    fragment branch (local copy, resolveComponent, recursive call on the copy — for path items only when the
+    copy is a reference —, set the value); deferred unvisitRef LAST (error returns and the swallowed
+    errMUST… leave the text in progress) -/
+def skeletonSteps (k : Kind) : List String :=
+  ["empty", "value", "shouldVisit:checked", "visit", "single(", "elem",
+   (if movesDocumentPath k then "load:moves" else "load:stays"), "setValue"] ++
+  (if k = .pathItem then [] else ["setRefPath:moved"]) ++
+  [")", "fragment(", "copy"] ++
+  (if walksInTargetContext k then ["component:switch", "recurse:ifRef", "setValue"]
+   else ["component:local", "fail", "recurse:swallowEmpty", "setValue", "setRefPath:target"]) ++
+  [")"] ++ (if k = .pathItem then ["keepRef"] else []) ++ ["defer:unvisit"]
+
+def routineRow (k : Kind) : String × List String × List String :=
+  (goName k, skeletonSteps k, (walkCalls k).map (·.name))
+
+/-- what the generated table `Gen.resolverSkeleton` must be (rows sorted by name): the ten routines, the two
+    walk helpers and `ResolveRefsIn` ("Document") -/
+def expectedSkeleton : List (String × List String × List String) :=
+  [routineRow .callback, ("ContentRefs", [], contentCalls.map (·.name)), ("Document", [], documentCalls.map (·.name)),
+   routineRow .example, ("ExampleRefs", [], exampleCalls.map (·.name)), routineRow .header, routineRow .link,
+   routineRow .parameter, routineRow .pathItem, routineRow .requestBody, routineRow .response, routineRow .schema,
+   routineRow .securityScheme]
 
 /-! ### One step of the loader -/
 
 inductive StepR
   | fail
-  | panicNil                                         -- typed nil field reached: nil dereference in resolveComponent
   | empty                                            -- fragment `#` of a document without extensions: an empty component
   /-- `cx`: the context to continue in; `home`: the context the target object is written in -/
   | node (cx : Cx) (home : Cx) (src : String) (ptr : List String) (typed : Bool) (docLoad : Option String)
@@ -328,12 +366,6 @@ def typedKind (j : Json) (ptr : List String) : Option Kind :=
 def typedNode (j : Json) (ptr : List String) : Option CNode :=
   (enumDoc ⟨none, none⟩ "" j).find? (·.ptr == ptr)
 
-def nilFieldNames (parent : Kind) : List String :=
-  match parent with
-  | .schema => ["items", "not", "additionalProperties"]
-  | .parameter => ["schema"]
-  | _ => []
-
 def stepGo (fs : Files) (rootData : Option Json) (cx : Cx) (text : String) (k : Kind) : StepR :=
   let docJson (u : Option String) : Option Json := match u with | some u => fetch fs u | none => rootData
   let (p, frag) := splitHash text
@@ -346,8 +378,7 @@ def stepGo (fs : Files) (rootData : Option Json) (cx : Cx) (text : String) (k : 
     | some j =>
       if !isObj j then .fail
       else
-        let moves := movesDocumentPath k
-        .node ⟨cx.doc, if moves then some u else cx.path⟩ ⟨cx.doc, some u⟩ (storeKey u) [] false none
+        .node ⟨cx.doc, if movesDocumentPath k then some u else cx.path⟩ ⟨cx.doc, some u⟩ (storeKey u) [] false none
   | some fr =>
     let internal := p = ""
     let cdoc : Option String := if internal then cx.doc else some (resolvePathGo cx.path p)
@@ -378,23 +409,17 @@ def stepGo (fs : Files) (rootData : Option Json) (cx : Cx) (text : String) (k : 
           | none => .fail
         else if (rawAt dj toks).isSome && !throughHeader then .fail       -- drill succeeds, type differs: "bad data"
         else
-          -- nil typed field of an existing value?
-          let parent := toks.dropLast
-          let last := toks.getLast?.getD ""
-          let pk := (typedNode dj parent).bind (fun n => if n.ref.isNone then some n.kind else none)
-          let isNil : Bool := match pk with | some pk => (nilFieldNames pk).contains last && k == .schema | none => false
-          if isNil then .panicNil
-          else
-            -- drill error → the raw re-read of `path` (the REFERRING file)
-            match cx.path with
+          -- drill error (absent key, nil typed field, anything below a header) → the raw re-read of
+          -- `componentPath`, the REFERENCED file (for a `#/…` reference: the referring `documentPath`)
+          match cpath with
+          | none => .fail
+          | some rp =>
+            match fetch fs rp with
             | none => .fail
-            | some rp =>
-              match fetch fs rp with
+            | some rj =>
+              match rawAt rj toks with
+              | some v => if isObj v then .node ⟨cdoc, cpath⟩ ⟨cdoc, cpath⟩ (storeKey rp) toks false load else .fail
               | none => .fail
-              | some rj =>
-                match rawAt rj toks with
-                | some v => if isObj v then .node ⟨cdoc, cpath⟩ ⟨cdoc, cpath⟩ (storeKey rp) toks false load else .fail
-                | none => .fail
 
 /-- the document `resolveRefAndDocument` loads (and walks, when new) for a reference: external references
     with a fragment, whatever the fragment turns out to name -/
